@@ -1,6 +1,7 @@
 package main
 
 import (
+	"bytes"
 	"fmt"
 	"math"
 	"strings"
@@ -67,6 +68,7 @@ type timeCodecs struct {
 	recStr  avro.Codec            // struct{T time.Time} under {"type":"string"}
 	date    avro.Codec            // struct{T time.Time} under {"type":"int","logicalType":"date"}
 	long    map[string]avro.Codec // ns / us / ms
+	longU   map[string]avro.Codec // the same under ["null", T]: only the zero time.Time is null
 	err     error
 }
 
@@ -81,7 +83,7 @@ func fieldCodec(fieldSchema string, out any) (avro.Codec, error) {
 func buildTimeCodecs() *timeCodecs {
 	avrotime.RegisterCodecs()
 	avronull.RegisterCodecs()
-	tc := &timeCodecs{long: map[string]avro.Codec{}, ptr2: map[string]avro.Codec{}}
+	tc := &timeCodecs{long: map[string]avro.Codec{}, longU: map[string]avro.Codec{}, ptr2: map[string]avro.Codec{}}
 	for k, schema := range map[string]string{
 		"date": `{"type":"int","logicalType":"date"}`, "ns": `{"type":"long"}`, "str": `"string"`,
 		"us": `{"type":"long","logicalType":"timestamp-micros"}`, "ms": `{"type":"long","logicalType":"timestamp-millis"}`,
@@ -110,6 +112,9 @@ func buildTimeCodecs() *timeCodecs {
 		var c avro.Codec
 		set(&c, schema, recTime{})
 		tc.long[k] = c
+		var cu avro.Codec
+		set(&cu, `["null",`+schema+`]`, recTime{})
+		tc.longU[k] = cu
 	}
 	return tc
 }
@@ -287,6 +292,18 @@ func newExecTime() func(op string, args []sx) sx {
 				r := avro.NewReadBuf(append([]byte(nil), bs...))
 				if err := c.Read(r, unsafe.Pointer(&d)); err != nil || r.Len() != 0 {
 					return T("w", H(bs), errSx)
+				}
+				// the same value in a nullable field: the non-null branch with the same bytes, unless it is the zero time.Time
+				if cu := tc.longU[a[0].atom]; cu != nil {
+					wu := avro.NewWriteBuf(nil)
+					cu.Write(wu, unsafe.Pointer(&src))
+					expect := append([]byte{2}, bs...)
+					if src.T.IsZero() {
+						expect = []byte{0}
+					}
+					if !bytes.Equal(wu.Bytes(), expect) {
+						return T("w", H(bs), T("nullable-field-wrote", H(wu.Bytes()), A("expected"), H(expect)))
+					}
 				}
 				return T("w", H(bs), okTime(d.T))
 			})
@@ -504,6 +521,11 @@ func genC18(c *ctx) {
 	}
 	for i := 0; i < c.scale(1500, 60000); i++ {
 		r := randRfc(c)
+		if r.mo >= 2 && i%3 == 0 {
+			// an invalid neighbour first (the same year, the month before, day + 32): the result of a parse must not depend on
+			// what was parsed before it
+			c.emit(T("str", H([]byte(fmt.Sprintf("%04d-%02d-%02d", r.y, r.mo-1, r.d+32)))))
+		}
 		c.emit(T("date", I(int64(r.y)), I(int64(r.mo)), I(int64(r.d)), H([]byte(fmt.Sprintf("%04d-%02d-%02d", r.y, r.mo, r.d)))))
 	}
 	// 6. format then parse: times in years 0000..9999, whole-minute offsets
